@@ -51,6 +51,8 @@ class C14(Prop):
                 rng.shuffle(order)
             return {"kind": "jdd", "jdd": [[list(k), rs(x)] for k, x in zip(keys, w)], "names": names, "dict_order": order}
         c = netgen.generated_network(rng) if rng.random() < 0.6 else netgen.hand_network(rng)
+        if rng.random() < 0.3:
+            c["jd_type"] = "list"
         c["kind"] = "net"
         c["reverse_dict"] = rng.random() < 0.5
         return c
